@@ -486,7 +486,10 @@ def r5_monophony(ctx):
     note = f'nonempty({d}.get_all_tokens(filter_by_categories=[TokenCategory.NOTE_REST]))'
     eq, cex, unknown = G.compare(fm, lambda v: v['k'] and not v['c'] and v['n'], {kern: 'k', chord: 'c', note: 'n'})
     if unknown:
-        raise AnalysisError(f'{f.loc}: is_monophonic depends on {sorted(unknown)[:2]}: not one of the three facts the rule knows')
+        quantities = (f"spine_types({d}, ['**kern'])", 'filter_by_categories=[TokenCategory.CHORD])', 'filter_by_categories=[TokenCategory.NOTE_REST])')
+        if not all(any(q_ in a_ for q_ in quantities) for a_ in unknown):
+            raise AnalysisError(f'{f.loc}: is_monophonic depends on {sorted(unknown)[:2]}: not one of the three facts the rule knows')
+        # a different comparison on one of the three known quantities: recognised, and not the stated one
     ctx.check(eq and not unknown, 'R5', f.loc, f.qualname, 'monophony-truth-table',
               'is_monophonic = exactly one **kern spine and no CHORD token and at least one NOTE_REST token',
               f'is_monophonic is `{G.show(fm)[:200]}`' + (f'; differs at {cex}' if cex else ''))
